@@ -999,13 +999,10 @@ def run(ctx):
 
 
 def replay(ctx, path):
-    r = json.load(open(path))
+    import replaylib
+    r = replaylib.load("C20", path)
     if "case" not in r:
-        print("replay file names obligations that no longer check (no failing input was found):")
-        print(json.dumps(r.get("no_longer_checks", r), indent=1)[:3000])
-        rc = 1
-        okb, log, bd = vlib.c_build("rel")
-        return rc
+        return replaylib.obligations("C20", run, r, path)
     okb, log, bd = vlib.c_build("rel")
     if not okb:
         print("build failed")
@@ -1021,8 +1018,7 @@ def replay(ctx, path):
         print("stderr:", res["stderr"][-300:])
         if res["bad"]:
             print("; ".join(res["bad"]))
-            print("VIOLATION property=C20 replay=%s" % path)
-            return 1
+            return replaylib.failed(ctx, "C20", r, path)
         print("replay passes")
         return 0
     finally:
